@@ -23,6 +23,7 @@ def check(run):
     effects(run, p)
     mustemit(run, p, 'C11-MUSTEMIT')
     joinrepr(run, p)
+    attrs(run, p)
     run.assume('file names of scripts and encodings are made of characters that need no escaping in Python source')
     run.trust('repr() of a str is a valid Python expression denoting it; os.path functions are pure')
 
@@ -420,3 +421,26 @@ def _eval_expr(src, attrs):
         if key in attrs:
             return osp.join(attrs[key], e.args[1].value)
     return '<uninterpretable: %s>' % src
+
+
+def attrs(run, p):
+    run.rule('C11-ATTRS', 'where the generator reads an attribute by a name taken from a constant tuple (getattr(self, k)), every name in '
+                          'the tuple is an attribute the class assigns')
+    c = p.cls('TestGenerator')
+    assigned = set(c.attrs_assigned)
+    n = 0
+    for f in c.methods.values():
+        for loop in ast.walk(f.node):
+            if isinstance(loop, ast.For) and isinstance(loop.target, ast.Name) and isinstance(loop.iter, (ast.Tuple, ast.List)) \
+                    and all(isinstance(x, ast.Constant) and isinstance(x.value, str) for x in loop.iter.elts):
+                k = loop.target.id
+                uses = [x for x in ast.walk(loop) if isinstance(x, ast.Call) and getattr(x.func, 'id', '') == 'getattr' and len(x.args) >= 2
+                        and norm(x.args[0]) == 'self' and norm(x.args[1]) == k and len(x.args) == 2]
+                if not uses:
+                    continue
+                for lit in loop.iter.elts:
+                    n += 1
+                    run.ob('C11-ATTRS', '%s::%s::%s' % (f.rel, f.short, lit.value), lit.value in assigned,
+                           'getattr(self, %r) in %s: the class %s' % (lit.value, f.short, 'assigns it' if lit.value in assigned else 'never assigns such an attribute (AttributeError)'),
+                           fn=f, node=uses[0])
+    run.floor('C11-ATTRS', n, 6)
